@@ -471,6 +471,58 @@ func writeFileFaults() {
 			ctx.Add("writefile_fault_cases", 1)
 		}
 	}
+	// WriteTo straight into an *os.File that cannot take the bytes: a
+	// descriptor opened for reading, a closed file, a device without space; and
+	// into a good file, which must then hold exactly the bytes
+	good := dir + "/plain.mid"
+	for _, n := range []int{0, 1, 30, 400, 900, 1300, 3000, 20000} {
+		in := mk(n)
+		var want bytes.Buffer
+		in.Clone().S.WriteTo(&want)
+		os.WriteFile(good, []byte("old"), 0o644)
+		for _, kind := range []string{"read-only-descriptor", "closed-file", "device-without-space", "good-file"} {
+			var f *os.File
+			var err error
+			switch kind {
+			case "read-only-descriptor":
+				f, err = os.Open(good)
+			case "closed-file":
+				if f, err = os.Create(good); err == nil {
+					f.Close()
+				}
+			case "device-without-space":
+				f, err = os.OpenFile("/dev/full", os.O_WRONLY, 0)
+			case "good-file":
+				f, err = os.Create(good)
+			}
+			if err != nil {
+				ctx.Add("osfile_"+kind+"_unavailable", 1)
+				continue
+			}
+			ctx.Eval()
+			ctx.NontrivialN(1)
+			ctx.Add("osfile_cases", 1)
+			var size int64
+			var werr error
+			c := engine.Catch(func() { size, werr = in.Clone().S.WriteTo(f) })
+			f.Close()
+			sig, what := "", ""
+			switch {
+			case c.Panicked:
+				sig, what = c.Sig+":WriteTo-os-file:"+kind, "WriteTo panicked: "+c.Value
+			case kind != "good-file" && werr == nil:
+				sig, what = "write-nil:os-file:"+kind, fmt.Sprintf("WriteTo of a %d-byte file into an *os.File that cannot take it (%s) returned nil, size %d", want.Len(), kind, size)
+			case kind == "good-file":
+				got, _ := os.ReadFile(good)
+				if werr != nil || size != int64(want.Len()) || !bytes.Equal(got, want.Bytes()) {
+					sig, what = "write-os-file:content", fmt.Sprintf("WriteTo into a fresh *os.File: error %v, size %d, the file holds %d bytes, expected %d", werr, size, len(got), want.Len())
+				}
+			}
+			if sig != "" && ctx.SigCount(sig) < 5 {
+				ctx.Violation(sig, map[string]interface{}{"kind": "writefile-fault", "destination": kind, "events": n, "what": what})
+			}
+		}
+	}
 }
 
 func main() {
